@@ -304,10 +304,16 @@ class SNum(SV):
                 return SNum(q, True), SNum(r, True)
             raise Unsupported('concrete divmod via proxies')
         ta, tb = _toreal(ta, ia), _toreal(tb, ib)
-        q = eng.draw('fdivq', z3.IntSort()); r = eng.draw('fdivr', z3.RealSort())
+        # Real floor-division kept LINEAR: P is the largest multiple of b not above a (for b > 0), r the remainder.
+        # "P is a multiple of b" is the uninterpreted predicate Mult(P, b); the only facts given about it are
+        # the instances Mult(P, b), Mult(P + b, b), Mult(P - b, b)  (multiples are closed under adding/removing b).
+        P = eng.draw('fdivP', z3.RealSort()); r = eng.draw('fdivr', z3.RealSort())
         if eng.mode == 'sym':
-            eng.assume(z3.And(ta == z3.ToReal(q) * tb + r, z3.If(tb > 0, z3.And(0 <= r, r < tb), z3.And(tb < r, r <= 0))), 'real divmod')
-            return SNum(z3.ToReal(q), False), SNum(r, False)
+            eng.assume(z3.And(ta == P + r, z3.If(tb > 0, z3.And(0 <= r, r < tb), z3.And(tb < r, r <= 0)),
+                              MultF(P, tb), MultF(P + tb, tb), MultF(P - tb, tb),
+                              z3.Implies(z3.And(tb > 0, ta >= 0), P >= 0), z3.Implies(z3.And(tb > 0, ta < 0), P < 0)), 'real divmod')
+            eng.no_crosscheck = 'real floor division modelled with the uninterpreted predicate Mult'
+            return _LazyQuot(P, tb), SNum(r, False)
         raise Unsupported('concrete divmod via proxies')
 
     def __mod__(self, o):
@@ -320,11 +326,11 @@ class SNum(SV):
 
     def __floordiv__(self, o):
         r = self._divmod(o)
-        return r if r is NotImplemented else r[0]
+        return r if r is NotImplemented else (r[0]._force() if isinstance(r[0], _LazyQuot) else r[0])
 
     def __rfloordiv__(self, o):
         r = self._divmod(o, True)
-        return r if r is NotImplemented else r[0]
+        return r if r is NotImplemented else (r[0]._force() if isinstance(r[0], _LazyQuot) else r[0])
 
     def __lt__(self, o): return self._cmp(o, lambda a, b: a < b)
     def __le__(self, o): return self._cmp(o, lambda a, b: a <= b)
@@ -358,6 +364,33 @@ class SNum(SV):
 
     def total_seconds(self):      # lets a real stand for a timedelta where only this is used
         raise AttributeError('total_seconds')
+
+
+MultF = z3.Function('Mult', z3.RealSort(), z3.RealSort(), z3.BoolSort())
+
+
+def is_multiple(x, b):
+    """x is an integer multiple of b (spec helper; symbolic: the uninterpreted Mult, concrete: exact rational test)."""
+    if isinstance(x, SNum) or isinstance(b, SNum):
+        tx, ix = _num(x); tb, ib = _num(b)
+        return SBool(MultF(_toreal(tx, ix), _toreal(tb, ib)))
+    q = fractions.Fraction(x) / fractions.Fraction(b)
+    return q.denominator == 1
+
+
+class _LazyQuot:
+    """The quotient of a real floor division: only materialised (non-linear!) if the program really uses it."""
+    def __init__(self, P, b):
+        self.P, self.b = P, b
+
+    def _force(self):
+        eng = E()
+        q = eng.draw('fdivq', z3.IntSort())
+        eng.assume(self.P == z3.ToReal(q) * self.b, 'quotient of a real floor division (non-linear)')
+        return SNum(z3.ToReal(q), False)
+
+    def __getattr__(self, name):
+        return getattr(self._force(), name)
 
 
 def smax(a, b):
